@@ -262,17 +262,23 @@ func (e *Engine) Load(name string) (*Template, error) {
 	var template *Template
 
 	for _, loader := range e.loaders {
+		// If this loader supports modification times, get the time. It is read
+		// before the source: when the template changes between the two reads the
+		// entry then carries the older stamp and the next check reloads it (read
+		// the other way round it would keep the old source under the new stamp
+		// and never be reloaded)
+		var stamp int64
+		if tsLoader, ok := loader.(TimestampAwareLoader); ok {
+			stamp, _ = tsLoader.GetModifiedTime(name)
+		}
+
 		source, err := loader.Load(name)
 		if err != nil {
 			// Collect loader errors for better diagnostics
 			loaderErrors = append(loaderErrors, fmt.Errorf("loader %T: %w", loader, err))
 			continue
 		}
-
-		// If this loader supports modification times, get the time
-		if tsLoader, ok := loader.(TimestampAwareLoader); ok {
-			lastModified, _ = tsLoader.GetModifiedTime(name)
-		}
+		lastModified = stamp
 
 		sourceLoader = loader
 		LogInfo("Template '%s' loaded from %T", name, loader)
